@@ -2099,6 +2099,19 @@ BTree_setdefault(BTree *self, PyObject *args)
     if (! PyArg_UnpackTuple(args, "setdefault", 2, 2, &key, &failobj))
         return NULL;
 
+    {
+        /* A default that could not be stored is an error even when the key
+         * is present and the default is not needed (as in the Python
+         * implementation):  setdefault() is a writing call.
+         */
+        VALUE_TYPE v;
+        int copied = 1;
+        COPY_VALUE_FROM_ARG(v, failobj, copied);
+        (void)v;
+        UNLESS (copied)
+            return NULL;
+    }
+
     value = _BTree_get(self, key, 0, _BGET_ALLOW_TYPE_ERROR);
     if (value != NULL)
         return value;
